@@ -1,4 +1,5 @@
 mod c12;
+mod c13;
 mod distprobe;
 mod enc;
 mod fw;
@@ -154,7 +155,11 @@ fn cmd_fw(args: &[String]) {
 }
 
 fn main() {
-    std::panic::set_hook(Box::new(|_| {}));
+    if std::env::var("VHARNESS_PANIC").is_ok() {
+        std::panic::set_hook(Box::new(|i| eprintln!("PANIC: {}", i)));
+    } else {
+        std::panic::set_hook(Box::new(|_| {}));
+    }
     let args: Vec<String> = std::env::args().collect();
     match args.get(1).map(|s| s.as_str()) {
         Some("fw") => cmd_fw(&args[2..]),
@@ -167,6 +172,16 @@ fn main() {
                 arg(a, "--only").map(|s| s.parse().unwrap()),
             )
         }
+        Some("c13") => {
+            let a = &args[2..];
+            c13::run(
+                arg(a, "--seed").map(|s| s.parse().unwrap()).unwrap_or(1),
+                arg(a, "--n").map(|s| s.parse().unwrap()).unwrap_or(100),
+                &arg(a, "--out").expect("--out"),
+                arg(a, "--only").map(|s| s.parse().unwrap()),
+            )
+        }
+        Some("c13worker") => c13::worker(&args[2..]),
         Some("c01std") => {
             let a = &args[2..];
             stdprobe::run(
